@@ -472,3 +472,8 @@ def run(cx, out):
         from . import panics
         from .. import facts as _fm
         panics.check_panics(out, facts, _fm.repo_root(), only_fns=lambda f: f['path'].startswith('compact::') or '<compact::' in f['path'] or ' compact::' in f['path'])
+    # premises: everything that reads a compact through another entry point uses the same acceptance: the length peek
+    # (C18 R18.1 reads exactly the Compact<u32> count) and any skip override (C18 R18.2 mirrors decode)
+    from . import shared
+    shared.premises(cx, out, {'c18': {'R18.1', 'R18.2'}})
+
